@@ -162,6 +162,12 @@ pub struct Labels {
 }
 
 thread_local! {
+    /// the subscriber of this thread also enables TRACE events (a user who installs a verbose
+    /// subscriber: the arguments of resolvo's trace! calls are evaluated only then)
+    static TRACE_ON: Cell<bool> = const { Cell::new(false) };
+}
+
+thread_local! {
     static LABELS: Cell<Labels> = const { Cell::new(Labels { decisions: 0, conflicts: 0, learnt: 0, backjumps: 0, restarts: 0 }) };
 }
 
@@ -215,8 +221,16 @@ impl tracing::field::Visit for MsgVisitor {
 
 struct LabelSubscriber;
 impl tracing::Subscriber for LabelSubscriber {
+    fn register_callsite(&self, m: &'static tracing::Metadata<'static>) -> tracing::subscriber::Interest {
+        // never cache a verdict: `enabled` depends on the thread it is asked on
+        if m.target().starts_with("resolvo") {
+            tracing::subscriber::Interest::sometimes()
+        } else {
+            tracing::subscriber::Interest::never()
+        }
+    }
     fn enabled(&self, m: &tracing::Metadata<'_>) -> bool {
-        *m.level() <= tracing::Level::DEBUG && m.target().starts_with("resolvo")
+        (*m.level() <= tracing::Level::DEBUG || TRACE_ON.with(|t| t.get())) && m.target().starts_with("resolvo")
     }
     fn new_span(&self, _: &tracing::span::Attributes<'_>) -> tracing::span::Id {
         tracing::span::Id::from_u64(1)
@@ -232,7 +246,21 @@ impl tracing::Subscriber for LabelSubscriber {
 
 /// Runs `f` with the label-counting subscriber installed on this thread.
 pub fn with_labels<T>(f: impl FnOnce() -> T) -> (T, Labels) {
+    with_labels_trace(false, f)
+}
+
+/// `trace`: the subscriber is a verbose one (TRACE level). Callsite interest is cached per
+/// callsite by `tracing`, so the cache is rebuilt whenever the level of this thread changes.
+pub fn with_labels_trace<T>(trace: bool, f: impl FnOnce() -> T) -> (T, Labels) {
     LABELS.with(|l| l.set(Labels::default()));
+    let before = TRACE_ON.with(|t| t.replace(trace));
+    struct Restore(bool);
+    impl Drop for Restore {
+        fn drop(&mut self) {
+            TRACE_ON.with(|t| t.set(self.0));
+        }
+    }
+    let _restore = Restore(before);
     let r = tracing::subscriber::with_default(LabelSubscriber, f);
     (r, LABELS.with(|l| l.get()))
 }
@@ -593,7 +621,9 @@ impl Session {
             })
         };
         let (res, lab) = if labels {
-            with_labels(|| guarded(|| run(&mut solver)))
+            // one universe in eight is solved under a TRACE-level subscriber
+            let verbose = crate::runner::hash_of(&(&*self.u, 3u8)) % 8 == 0;
+            with_labels_trace(verbose, || guarded(|| run(&mut solver)))
         } else {
             (guarded(|| run(&mut solver)), Labels::default())
         };
